@@ -160,6 +160,27 @@ Section WithL.
     destruct (Gen_List.pvGetOffset _ _ _ _ _ _); try discriminate. injection H as ->. reflexivity.
   Qed.
 
+  (* the GENERATED Contains on any reachable state: true exactly for the columns of the list, and through a non-null
+     resOffset it writes the column's recorded offset *)
+  Theorem reachable_generated_Contains ops code : Forall (fun op => group_ok (snd op)) ops ->
+    let st := reach_f ops in
+    (fst (contains_gen L st 1 code) = true <-> In code (map r_code (columns st))) /\
+    (forall r, In r (columns st) -> contains_gen L st 1 (r_code r) = (true, r_off r)) /\
+    fst (contains_gen L st 0 code) = fst (contains_gen L st 1 code) /\ snd (contains_gen L st 0 code) = 0.
+  Proof.
+    intros Hops st. pose proof (run_f_inv L keep HL ops Hops) as I. fold st in I.
+    rewrite !(contains_refines L).
+    split; [|split; [|split]].
+    - destruct (contains L st code) as [o|] eqn:E; cbn [fst].
+      + split; [intros _|reflexivity]. apply (contains_iff L keep) in E; auto. destruct E as (r & Hr & Ec & _).
+        apply in_map_iff. eauto.
+      + split; [discriminate|]. intros Hin. apply (contains_none_iff L keep st code I) in E. contradiction.
+    - intros r Hr. assert (E : contains L st (r_code r) = Some (r_off r)) by (apply (contains_iff L keep); eauto).
+      rewrite (contains_refines L), E. reflexivity.
+    - destruct (contains L st code); reflexivity.
+    - destruct (contains L st code); reflexivity.
+  Qed.
+
   (* in every reachable state mCodeParam is at most the source's maxCodeParam, so every vertex index computed from it --
      for ANY column code, added or not -- is inside mAddends / mEdges *)
   Theorem reachable_indices_in_bounds ops code : Forall (fun op => group_ok (snd op)) ops ->
